@@ -234,6 +234,7 @@ PROPS["C19"] = {
 }
 
 NOT_APPLICABLE = [
+    {"property_id": "C10", "reason": "contract-based verification decides properties of one call; this property quantifies over API histories, drop orders and thread interleavings, and Kani has no threads. The one sub-claim with a function boundary - the unsafe constructor Schema::try_from on bounded graphs - needs canonical_form/serialize_to_json stubbed and unions/records excluded (their construction hashes) and was not built; every other harness dereferences NodeRefs under Kani's pointer checks, which is supporting evidence only"},
     {"property_id": "C05", "reason": "quantifies over external compression libraries (miniz_oxide via flate2; bzip2/xz/zstd/snappy are FFI or not compiled by the pinned default-feature build): no contract within reach of Kani/Verus can state inflate(deflate(x)) == x, and assuming it leaves nothing of the property to decide; the repository-side framing obligations are discharged under C06/C15/C17 for the null codec"},
     {"property_id": "C07", "reason": "the behaviour lives in one 200-line recursive function over a serde_json-deserialized AST with a HashMap name table and inline string rules: no function boundary to put a contract on without rewriting it (a model), CBMC does not get through serde_json or HashMap (measured), Verus accepts neither serde-derived types nor str reasoning"},
     {"property_id": "C09", "reason": "both directions are serde_json text production/consumption plus the parser of C07; 'parses back to an isomorphic graph' needs the parser under contract; string/JSON reasoning is outside both verifiers' reach here"},
